@@ -169,7 +169,17 @@ def run(ctx: Ctx) -> None:
     for name in ("return_token", "return_tokens"):
         fn = meths.get(name)
         txt = norm(fn) if fn else ""
-        ok = ("self.tokbuf.appendleft(tok)" in txt) if name == "return_token" else ("self.tokbuf.extendleft(reversed(toks))" in txt)
+        if name == "return_token":
+            ok = "self.tokbuf.appendleft(tok)" in txt
+        else:
+            # the tokens go back to the FRONT, first token first: extendleft/appendleft reverse, so the input is walked backwards
+            p0 = fn.args.args[1].arg if fn and len(fn.args.args) > 1 else "toks"
+            rev = (f"reversed({p0})", f"{p0}[::-1]")
+            ok = any(f"self.tokbuf.extendleft({r})" in txt for r in rev)
+            if not ok and fn is not None:
+                for lp in walk_local(fn):
+                    if isinstance(lp, ast.For) and isinstance(lp.target, ast.Name) and norm(lp.iter) in rev and len(lp.body) == 1 and norm(lp.body[0]) == f"self.tokbuf.appendleft({lp.target.id})" and not lp.orelse:
+                        ok = True
         ctx.ob("R9.2", f"lexer:TokenStream.{name}|pushes back to the left, order preserved", ok, msg=f"{name} no longer restores tokens at the front of the buffer in their original order", node=fn or lex.cls(ts), mod=lex, nontrivial=False)
 
     # ---------------------------------------------------------------- R9.3
